@@ -571,6 +571,35 @@ pub fn subscript_range(
     }
 }
 
+/// A logical index must have exactly one entry per element of the matrix
+/// dimension it selects from (all elements for a one-dimensional subscript).
+#[cfg(feature = "matrix")]
+pub fn check_logical_index_lengths(target: &Value, ixes: &[Value]) -> MResult<()> {
+    if !matches!(target.deref_kind(), ValueKind::Matrix(..)) {
+        return Ok(());
+    }
+    let shape = target.shape();
+    for (dim, ix) in ixes.iter().enumerate() {
+        let is_logical = match ix.deref_kind() {
+            ValueKind::Matrix(k, _) => *k == ValueKind::Bool,
+            _ => false,
+        };
+        if !is_logical {
+            continue;
+        }
+        let ix_shape = ix.shape();
+        let extent = if ixes.len() == 1 { shape[0] * shape[1] } else { shape[dim] };
+        if ix_shape[0] * ix_shape[1] != extent {
+            return Err(MechError::new(
+                DimensionMismatch { dims: vec![shape[0], shape[1], ix_shape[0], ix_shape[1]] },
+                None,
+            )
+            .with_compiler_loc());
+        }
+    }
+    Ok(())
+}
+
 #[cfg(all(feature = "subscript", feature = "access"))]
 pub fn subscript(
     sbscrpt: &Subscript,
@@ -852,6 +881,11 @@ pub fn subscript(
                 }
                 _ => unreachable!(),
             };
+            #[cfg(feature = "matrix")]
+            if let Err(err) = check_logical_index_lengths(&fxn_input[0], &fxn_input[1..]) {
+                plan.borrow_mut().pop();
+                return Err(err);
+            }
             let plan_brrw = plan.borrow();
             let mut new_fxn = &plan_brrw.last().unwrap();
             new_fxn.solve();
